@@ -15,17 +15,20 @@ import (
 	"strconv"
 
 	_ "github.com/pion/interceptor/verifh/c01"
+	_ "github.com/pion/interceptor/verifh/c02"
 	_ "github.com/pion/interceptor/verifh/c03"
 	_ "github.com/pion/interceptor/verifh/c04"
 	_ "github.com/pion/interceptor/verifh/c08"
 	_ "github.com/pion/interceptor/verifh/c09"
 	_ "github.com/pion/interceptor/verifh/c10"
 	_ "github.com/pion/interceptor/verifh/c11"
+	_ "github.com/pion/interceptor/verifh/c12"
 	_ "github.com/pion/interceptor/verifh/c13"
 	_ "github.com/pion/interceptor/verifh/c14"
 	_ "github.com/pion/interceptor/verifh/c15"
 	_ "github.com/pion/interceptor/verifh/c16"
 	_ "github.com/pion/interceptor/verifh/c17"
+	_ "github.com/pion/interceptor/verifh/c18"
 	_ "github.com/pion/interceptor/verifh/c20"
 	"github.com/pion/interceptor/verifh/dbg"
 	"github.com/pion/interceptor/verifh/hk"
